@@ -64,6 +64,7 @@ DiffFields(A, B) == {f \in DOMAIN A : A[f] # B[f]}
 
 SpecStep(pre, ev) ==
     IF ev.op = "init" THEN SchedArg(Initialise(pre), pre.now + ev.d, -1, "term", 10, 0)
+    ELSE IF ev.op = "step" /\ ev.direct THEN Script(pre, cfg.script[ev.arg])
     ELSE IF ev.op = "step" THEN
         LET cands == {e \in MinEvents(pre.q) : e.asset = ev.asset /\ e.kind = ev.kind /\ e.cancelled = ev.cancelled
                                                /\ e.time = ev.time /\ e.prio = ev.prio /\ e.arg = ev.arg} IN
